@@ -85,6 +85,5 @@ def run_time(rep, tier, seed):
 
 def replay(data):
     if data.get('kind') == 'time':
-        print('replay of time cases: rerun bin/check C12 quick with the same seed')
-        return 1
+        return common.replay_by_rerun('C12', data, run)
     return c03.replay(data, 'C12')
